@@ -62,8 +62,9 @@ Proof. reflexivity. Qed.
 Arguments compile : simpl never.
 
 (* ------------------------------------------------------------------ variables: what the root table knows *)
-Definition sym_of (names : list (list N)) (i : nat) : symbol :=
-  {| sy_name := nth i names []; sy_index := N.of_nat i; sy_const := false |}.
+Definition sym_at (names : list (list N)) (slot : nat -> nat) (i : nat) : symbol :=
+  {| sy_name := nth i names []; sy_index := N.of_nat (slot i); sy_const := false |}.
+Definition sym_of (names : list (list N)) (i : nat) : symbol := sym_at names (fun j => j) i.
 
 (* table 0 is the root table (no parent) and maps the first n variable names to the global slots 0 .. n-1 *)
 Definition tabs_ok (names : list (list N)) (tabs : list table) (n : nat) : Prop :=
@@ -82,10 +83,11 @@ Qed.
 
 (* what compile_scalar needs to know about the compiler state: the first n variables resolve to the global slots
    0 .. n-1, without changing the state, and this stays so when constants are appended *)
-Definition res_ok (names : list (list N)) (st : cstate) (n : nat) : Prop :=
+Definition res_ok_at (names : list (list N)) (slot : nat -> nat) (st : cstate) (n : nat) : Prop :=
   forall ks i, i < n ->
     resolve_cur (nth i names []) (add_consts st ks) =
-    inr ({| rs_sym := sym_of names i; rs_scope := Global; rs_depth := 0; rs_free := 0 |}, add_consts st ks).
+    inr ({| rs_sym := sym_at names slot i; rs_scope := Global; rs_depth := 0; rs_free := 0 |}, add_consts st ks).
+Definition res_ok (names : list (list N)) (st : cstate) (n : nat) : Prop := res_ok_at names (fun j => j) st n.
 
 Lemma add_consts_tabs st ks : st_tabs (add_consts st ks) = st_tabs st.
 Proof. unfold add_consts. destruct (st_stack st); reflexivity. Qed.
@@ -112,12 +114,17 @@ Proof.
   cbn [w_consts with_consts]. rewrite app_assoc. reflexivity.
 Qed.
 
-Lemma res_ok_add names st n ks : res_ok names st n -> res_ok names (add_consts st ks) n.
+Lemma res_ok_at_add names slot st n ks : res_ok_at names slot st n -> res_ok_at names slot (add_consts st ks) n.
 Proof. intros H ks' i Hi. rewrite add_consts_twice. apply H. exact Hi. Qed.
+Lemma res_ok_add names st n ks : res_ok names st n -> res_ok names (add_consts st ks) n.
+Proof. apply res_ok_at_add. Qed.
 
+Lemma res_ok_at_here names slot st n w r i : st_stack st = w :: r -> res_ok_at names slot st n -> i < n ->
+  resolve_cur (nth i names []) st = inr ({| rs_sym := sym_at names slot i; rs_scope := Global; rs_depth := 0; rs_free := 0 |}, st).
+Proof. intros Hs H Hi. specialize (H [] i Hi). rewrite (add_consts_nil st w r Hs) in H. exact H. Qed.
 Lemma res_ok_here names st n w r i : st_stack st = w :: r -> res_ok names st n -> i < n ->
   resolve_cur (nth i names []) st = inr ({| rs_sym := sym_of names i; rs_scope := Global; rs_depth := 0; rs_free := 0 |}, st).
-Proof. intros Hs H Hi. specialize (H [] i Hi). rewrite (add_consts_nil st w r Hs) in H. exact H. Qed.
+Proof. apply res_ok_at_here. Qed.
 
 (* at the root: table 0 knows the variables *)
 Lemma res_ok_root names st w r n :
@@ -132,12 +139,12 @@ Proof.
 Qed.
 
 (* the compiler emits exactly [cexp], appends exactly its constants, and touches nothing else *)
-Theorem compile_scalar_res : forall names n e f st w r,
-  st_stack st = w :: r -> res_ok names st n -> wf n e = true -> height e <= f ->
+Theorem compile_scalar_at : forall names slot n e f st w r,
+  st_stack st = w :: r -> res_ok_at names slot st n -> wf n e = true -> height e <= f ->
   compile f (embed names e) st =
-  inr (I (fst (cexp (length (w_consts w)) e)), add_consts st (snd (cexp (length (w_consts w)) e))).
+  inr (I (fst (cexp_at slot (length (w_consts w)) e)), add_consts st (snd (cexp_at slot (length (w_consts w)) e))).
 Proof.
-  intros names n.
+  intros names slot n.
   induction e as [z|b| |str|i|a IHa|a IHa|o a IHa b IHb|a IHa b IHb|a IHa b IHb|c IHc t IHt e IHe];
     intros f st w r Hst Ht Hwf Hf; cbn [height] in Hf; (destruct f as [|f]; [lia|]); cbn [embed]; cbn [wf] in Hwf.
   - rewrite compile_NInt. unfold bind. rewrite (constant_spec _ _ _ _ Hst). reflexivity.
@@ -145,58 +152,64 @@ Proof.
   - rewrite compile_NNil. cbn. rewrite (add_consts_nil _ _ _ Hst). reflexivity.
   - rewrite compile_NString. unfold bind. rewrite (constant_spec _ _ _ _ Hst). reflexivity.
   - apply Nat.ltb_lt in Hwf. rewrite compile_NIdent. unfold bind.
-    rewrite (res_ok_here names st n w r i Hst Ht Hwf). cbn. rewrite (add_consts_nil _ _ _ Hst). reflexivity.
+    rewrite (res_ok_at_here names slot st n w r i Hst Ht Hwf). cbn. rewrite (add_consts_nil _ _ _ Hst). reflexivity.
   - rewrite compile_NPrefix. unfold bind. rewrite (IHa f st w r Hst Ht Hwf) by lia.
-    cbn [cexp]. destruct (cexp (length (w_consts w)) a) as [ca ka]. cbn. rewrite I_app. reflexivity.
+    cbn [cexp_at]. destruct (cexp_at slot (length (w_consts w)) a) as [ca ka]. cbn. rewrite I_app. reflexivity.
   - rewrite compile_NPrefix. unfold bind. rewrite (IHa f st w r Hst Ht Hwf) by lia.
-    cbn [cexp]. destruct (cexp (length (w_consts w)) a) as [ca ka]. cbn. rewrite I_app. reflexivity.
+    cbn [cexp_at]. destruct (cexp_at slot (length (w_consts w)) a) as [ca ka]. cbn. rewrite I_app. reflexivity.
   - apply andb_true_iff in Hwf. destruct Hwf as [Hwa Hwb].
     rewrite compile_NInfix, op_text_not_logic. unfold bind.
-    rewrite (IHa f st w r Hst Ht Hwa) by lia. cbn [cexp].
-    destruct (cexp (length (w_consts w)) a) as [ca ka] eqn:Ea. cbn [fst snd].
+    rewrite (IHa f st w r Hst Ht Hwa) by lia. cbn [cexp_at].
+    destruct (cexp_at slot (length (w_consts w)) a) as [ca ka] eqn:Ea. cbn [fst snd].
     pose proof (add_consts_stack st w r ka Hst) as Hst2.
-    pose proof (res_ok_add names st n ka Ht) as Ht2.
+    pose proof (res_ok_at_add names slot st n ka Ht) as Ht2.
     rewrite (IHb f _ _ r Hst2 Ht2 Hwb) by lia. cbn [w_consts with_consts]. rewrite app_length.
-    destruct (cexp (length (w_consts w) + length ka) b) as [cb kb] eqn:Eb. cbn [fst snd].
+    destruct (cexp_at slot (length (w_consts w) + length ka) b) as [cb kb] eqn:Eb. cbn [fst snd].
     rewrite binop_code_op. unfold ret. rewrite (add_consts_app _ _ _ _ _ Hst). rewrite !I_app. reflexivity.
   - apply andb_true_iff in Hwf. destruct Hwf as [Hwa Hwb].
     rewrite compile_NInfix. change (beq [38;38]%N [38;38]%N || beq [38;38]%N [124;124]%N) with true. cbn iota. unfold bind.
-    rewrite (IHa f st w r Hst Ht Hwa) by lia. cbn [cexp].
-    destruct (cexp (length (w_consts w)) a) as [ca ka] eqn:Ea. cbn [fst snd].
+    rewrite (IHa f st w r Hst Ht Hwa) by lia. cbn [cexp_at].
+    destruct (cexp_at slot (length (w_consts w)) a) as [ca ka] eqn:Ea. cbn [fst snd].
     pose proof (add_consts_stack st w r ka Hst) as Hst2.
-    pose proof (res_ok_add names st n ka Ht) as Ht2.
+    pose proof (res_ok_at_add names slot st n ka Ht) as Ht2.
     rewrite (IHb f _ _ r Hst2 Ht2 Hwb) by lia. cbn [w_consts with_consts]. rewrite app_length.
-    destruct (cexp (length (w_consts w) + length ka) b) as [cb kb] eqn:Eb. cbn [fst snd].
+    destruct (cexp_at slot (length (w_consts w) + length ka) b) as [cb kb] eqn:Eb. cbn [fst snd].
     unfold ret. rewrite (add_consts_app _ _ _ _ _ Hst).
     change (beq [38; 38]%N [38; 38]%N) with true. cbn iota zeta.
     rewrite <- I_app, nlen_I. rewrite !I_app. cbn [I map app]. reflexivity.
   - apply andb_true_iff in Hwf. destruct Hwf as [Hwa Hwb].
     rewrite compile_NInfix. change (beq [124;124]%N [38;38]%N || beq [124;124]%N [124;124]%N) with true. cbn iota. unfold bind.
-    rewrite (IHa f st w r Hst Ht Hwa) by lia. cbn [cexp].
-    destruct (cexp (length (w_consts w)) a) as [ca ka] eqn:Ea. cbn [fst snd].
+    rewrite (IHa f st w r Hst Ht Hwa) by lia. cbn [cexp_at].
+    destruct (cexp_at slot (length (w_consts w)) a) as [ca ka] eqn:Ea. cbn [fst snd].
     pose proof (add_consts_stack st w r ka Hst) as Hst2.
-    pose proof (res_ok_add names st n ka Ht) as Ht2.
+    pose proof (res_ok_at_add names slot st n ka Ht) as Ht2.
     rewrite (IHb f _ _ r Hst2 Ht2 Hwb) by lia. cbn [w_consts with_consts]. rewrite app_length.
-    destruct (cexp (length (w_consts w) + length ka) b) as [cb kb] eqn:Eb. cbn [fst snd].
+    destruct (cexp_at slot (length (w_consts w) + length ka) b) as [cb kb] eqn:Eb. cbn [fst snd].
     unfold ret. rewrite (add_consts_app _ _ _ _ _ Hst).
     change (beq [124; 124]%N [38; 38]%N) with false. cbn iota zeta.
     rewrite <- I_app, nlen_I. rewrite !I_app. cbn [I map app]. reflexivity.
   - apply andb_true_iff in Hwf. destruct Hwf as [Hwct Hwe]. apply andb_true_iff in Hwct. destruct Hwct as [Hwc Hwt].
     rewrite compile_NTernary. unfold bind.
-    rewrite (IHc f st w r Hst Ht Hwc) by lia. cbn [cexp].
-    destruct (cexp (length (w_consts w)) c) as [cc kc] eqn:Ec. cbn [fst snd].
+    rewrite (IHc f st w r Hst Ht Hwc) by lia. cbn [cexp_at].
+    destruct (cexp_at slot (length (w_consts w)) c) as [cc kc] eqn:Ec. cbn [fst snd].
     pose proof (add_consts_stack st w r kc Hst) as Hst2.
-    pose proof (res_ok_add names st n kc Ht) as Ht2.
+    pose proof (res_ok_at_add names slot st n kc Ht) as Ht2.
     rewrite (IHt f _ _ r Hst2 Ht2 Hwt) by lia. cbn [w_consts with_consts]. rewrite app_length.
-    destruct (cexp (length (w_consts w) + length kc) t) as [ct kt] eqn:Et. cbn [fst snd].
+    destruct (cexp_at slot (length (w_consts w) + length kc) t) as [ct kt] eqn:Et. cbn [fst snd].
     rewrite (add_consts_app _ _ _ _ _ Hst).
     pose proof (add_consts_stack st w r (kc ++ kt) Hst) as Hst3.
-    pose proof (res_ok_add names st n (kc ++ kt) Ht) as Ht3.
+    pose proof (res_ok_at_add names slot st n (kc ++ kt) Ht) as Ht3.
     rewrite (IHe f _ _ r Hst3 Ht3 Hwe) by lia. cbn [w_consts with_consts]. rewrite !app_length, Nat.add_assoc.
-    destruct (cexp (length (w_consts w) + length kc + length kt) e) as [cf kf] eqn:Ef. cbn [fst snd].
+    destruct (cexp_at slot (length (w_consts w) + length kc + length kt) e) as [cf kf] eqn:Ef. cbn [fst snd].
     unfold ret. rewrite (add_consts_app _ _ _ _ _ Hst). rewrite <- app_assoc.
     rewrite !nlen_I. rewrite !I_app. cbn [I map app]. reflexivity.
 Qed.
+
+Theorem compile_scalar_res : forall names n e f st w r,
+  st_stack st = w :: r -> res_ok names st n -> wf n e = true -> height e <= f ->
+  compile f (embed names e) st =
+  inr (I (fst (cexp (length (w_consts w)) e)), add_consts st (snd (cexp (length (w_consts w)) e))).
+Proof. intros names n. exact (compile_scalar_at names (fun j => j) n). Qed.
 
 (* the root-table form *)
 Theorem compile_scalar : forall names n e f st w r,
